@@ -113,7 +113,7 @@ func MultiplexData(r *rand.Rand, ntags, n int) Multiplex {
 	}
 	m.Sheet = []byte(sb.String())
 	var rd strings.Builder
-	for i := 0; i < n; i++ {
+	amplicon := func() []byte {
 		t := []byte(tags[r.Intn(ntags)])
 		if r.Intn(10) == 0 {
 			t = DNA(r, 7) // unknown tag
@@ -134,8 +134,63 @@ func MultiplexData(r *rand.Rand, ntags, n int) Multiplex {
 		if r.Intn(2) == 0 {
 			seq = rc(seq)
 		}
+		return seq
+	}
+	for i := 0; i < n; i++ {
+		seq := amplicon()
+		if r.Intn(10) == 0 {
+			// a concatemer: two or three amplicons in one read (one record per amplicon comes out)
+			for k := 0; k < 1+r.Intn(2); k++ {
+				seq = append(append(seq, DNA(r, 5+r.Intn(20))...), amplicon()...)
+			}
+		}
 		if r.Intn(12) == 0 {
 			seq = DNA(r, 80) // no primer at all
+		}
+		fmt.Fprintf(&rd, "@read%05d\n%s\n+\n%s\n", i, seq, qualLine(r, len(seq)))
+	}
+	m.Reads = []byte(rd.String())
+	return m
+}
+
+// MultiplexCloseTags: a CSV sheet asking for approximate tag matching (hamming or indel) whose
+// sample tags lie 2 substitutions apart in pairs, and reads whose tags sit between two of them
+// (one substitution from each): the answer for such a read is "ambiguous", every time.
+func MultiplexCloseTags(r *rand.Rand, n int) Multiplex {
+	m := Multiplex{Fwd: "ttagataccccactatgc", Rev: "tagaacaggctcctctag"}
+	pairs := [][3]string{ // tag A, tag B (2 substitutions away), a word at distance 1 of both
+		{"aattaacg", "aactaaag", "aactaacg"},
+		{"gcctcctt", "gcgtccat", "gcgtcctt"},
+		{"ctatgtac", "ctttgtgc", "ctatgtgc"},
+	}
+	var sb strings.Builder
+	fmt.Fprintf(&sb, "@param,matching,%s\n@param,primer_mismatches,1\nexperiment,sample,sample_tag,forward_primer,reverse_primer\n", []string{"hamming", "indel"}[r.Intn(2)])
+	for i, p := range pairs {
+		for k := 0; k < 2; k++ {
+			name := fmt.Sprintf("sample%d%c", i, 'a'+k)
+			m.Tags = append(m.Tags, p[k])
+			m.Samples = append(m.Samples, name)
+			fmt.Fprintf(&sb, "exp1,%s,%s,%s,%s\n", name, p[k], m.Fwd, m.Rev)
+		}
+	}
+	m.Sheet = []byte(sb.String())
+	var rd strings.Builder
+	for i := 0; i < n; i++ {
+		p := pairs[r.Intn(len(pairs))]
+		t := []byte(p[r.Intn(3)])
+		if r.Intn(4) == 0 {
+			t[r.Intn(len(t))] = ACGT[r.Intn(4)]
+		}
+		var seq []byte
+		seq = append(seq, DNA(r, r.Intn(4))...)
+		seq = append(seq, t...)
+		seq = append(seq, m.Fwd...)
+		seq = append(seq, DNA(r, 30+r.Intn(60))...)
+		seq = append(seq, rc([]byte(m.Rev))...)
+		seq = append(seq, rc(t)...)
+		seq = append(seq, DNA(r, r.Intn(4))...)
+		if r.Intn(2) == 0 {
+			seq = rc(seq)
 		}
 		fmt.Fprintf(&rd, "@read%05d\n%s\n+\n%s\n", i, seq, qualLine(r, len(seq)))
 	}
